@@ -643,7 +643,7 @@ func corpusCV(cfg *config) []string {
 	// each of them in the timed lap (every reading of every channel takes part in the fit)
 	var long strings.Builder
 	long.WriteString("Time,UTC Time,Lap,GPS_Update,Latitude,Longitude,OBD_Update,Engine Speed (RPM) *OBD,Throttle Position (%) *OBD,Engine Coolant Temp (C) *OBD\n")
-	long.WriteString("0.000,1000000000.000,0,1,0.0000000,0.0000000,0,0,0,0\n# Lap 0: 00:00:01.000\n")
+	long.WriteString("0.000,1000000000.000,0,1,0.0000000,0.0000000,1,900,0.5,55\n# Lap 0: 00:00:01.000\n")
 	for i := 0; i < 1150; i++ {
 		fmt.Fprintf(&long, "%d.000,%d.000,1,0,0.0000000,0.0000000,1,%d,%d.5,%d\n", 1+2*i, 1000000001+2*i, 1000+3*i, i%100, 60+i%40)
 		fmt.Fprintf(&long, "%d.000,%d.000,1,1,0.0000000,0.0000000,0,%d,%d.5,%d\n", 2+2*i, 1000000002+2*i, 1000+3*i, i%100, 60+i%40)
